@@ -77,6 +77,22 @@ let handle (w : string list) : string =
     let real = List.assoc s !sess_user in
     let acting a = if i a = 0 then real else i a in
     let peer u = if u = 1 then 2 else 1 in
+    if kind = "note" then begin
+      match args with
+      | [_; a; sp; what; seq] ->
+        let au = acting a in
+        let orig = match sp with "g" -> TGrp | "c" -> TChn | "u" -> TUsr (ni (peer au)) | _ -> TP2P in
+        let wt = match what with "kp" -> 0 | "read" -> 1 | "recv" -> 2 | "kpa" -> 3 | _ -> 4 in
+        let nx = { nx_sid = ni s; nx_from = ni au; nx_chan = (sp = "c"); nx_orig = orig; nx_what = ni wt; nx_seq = z_of_string seq } in
+        let attached = List.exists (fun (k, _) -> int_of_n k = s) !st.st_sess in
+        let permitted = attached && note_permitted !st nx in
+        let fl = if attached then List.map (fun (k, (f : iframe)) ->
+            (int_of_n k, Printf.sprintf "S%d info what=%s from=%d seq=%s topic=%s src=-" (int_of_n k) what (int_of_n f.i_from)
+               (string_of_z f.i_seq) (tname_s f.i_topic))) (isent (note_relay !st nx)) else [] in
+        let fl = List.map snd (List.stable_sort (fun (a, _) (b, _) -> compare a b) fl) in
+        String.concat "\n" ((hdr :: fl) @ [ "permitted " ^ b2s permitted ] @ state_lines !st)
+      | _ -> failwith "bad note"
+    end else
     let o = match kind, args with
       | "att", [_; a; sp] -> OAttach (ni s, ni (acting a), sp = "c")
       | "det", [_; a; sp] -> ODetach (ni s, ni (acting a), sp = "c")
